@@ -25,7 +25,7 @@ RULE = ("Event count 0..2*dw+3, data width in {4,8,16}, alignment 0-3, a trigger
         "clear, and a multi-chunk pending read. Distinct = canonical JSON.")
 BUDGET = {"quick": (16, 150), "thorough": (16, 4000)}
 ESSENTIAL = ["attach:decoder", "attach:connect", "multi_chunk_masks", "non_pow2_chunks", "event_in_clear_cycle",
-             "pending_write", "enable_write", "pending_multichunk_read", "zero_events", "alignment_padding", "events>=64", "chunks>8"]
+             "pending_write", "enable_write", "pending_multichunk_read", "zero_events", "alignment_padding", "events>=64", "chunks>8", "enable_one_hot"]
 ASSUMPTIONS = [
     "mask registers are written completely or not at all (chunk-skipping writes leave unspecified bits)",
     "observation is through the bus port and the outgoing src.i only",
@@ -150,6 +150,7 @@ def check(spec, stats):
                 clear = e.w_data[1]
             if e.w_stb[0]:
                 state["enable"] = e.w_data[0]
+                stats.label("enable_one_hot", n > 1 and bin(e.w_data[0]).count("1") == 1)
             if clear & trg:
                 stats.label("event_in_clear_cycle")
             state["pending"] = (state["pending"] & ~clear | trg) & full
